@@ -224,7 +224,7 @@ def run_K(h, meta, wdir, timeout, mem_gb):
         return r
     res, status, errs = parse_cbmc_json(out)
     if res is None:
-        oom = 'bad_alloc' in errt or 'Out of memory' in errt or 'out of memory' in (out[-3000:] + errt) or rc in (-9, -6, 134, 137)
+        oom = 'bad_alloc' in errt or 'Out of memory' in errt or 'out of memory' in (out[-3000:] + errt) or rc in (-9, -6, 6, 134, 137)
         r.update(verdict='oom' if oom else 'error', detail=f'rc={rc} {"; ".join(errs)[:300]} {errt[-300:]}')
         return r
     c = classify(res)
@@ -260,7 +260,8 @@ def resolve_unwindset(w, spec):
         if m:
             sub, k = m.group(1), m.group(2)
         for lid, fn in loops:
-            if sub in fn and (k is None or lid.endswith('.' + k)):
+            hit = fn.startswith(sub[1:]) if sub.startswith('^') else (sub in fn)
+            if hit and (k is None or lid.endswith('.' + k)):
                 out.append(f'{lid}:{b}')
     return ','.join(out)
 
